@@ -187,8 +187,12 @@ IsCff2(kind) == kind \in {"cff2", "cff2fd"}
 END(kind) == IF IsCff2(kind) THEN <<>> ELSE <<O("endchar")>>
 RET(kind) == IF IsCff2(kind) THEN <<>> ELSE <<O("return")>>
 NoVar == [regions |-> <<>>, tuple |-> <<>>, dvs |-> 0]
+\* feat: the feature class a finding on this case is filed under (part of the violation key)
+FeatOf(fam, tag, ls, gs) ==
+  IF fam \in {"seac", "misc", "blend"} THEN tag
+  ELSE IF ls # <<>> THEN "lsubr" ELSE IF gs # <<>> THEN "gsubr" ELSE "nosubr"
 Case(fam, tag, kind, prog, ls, gs, nL, nG, comps, charset, var, path, small) ==
-  [fam |-> fam, tag |-> tag, kind |-> kind, prog |-> prog, lsubrs |-> ls, gsubrs |-> gs,
+  [fam |-> fam, tag |-> tag, feat |-> FeatOf(fam, tag, ls, gs), kind |-> kind, prog |-> prog, lsubrs |-> ls, gsubrs |-> gs,
    nL |-> nL, nG |-> nG, comps |-> comps, charset |-> charset,
    regions |-> var.regions, tuple |-> var.tuple, dvs |-> var.dvs, path |-> path, small |-> small]
 
@@ -334,8 +338,10 @@ SeacCases(codes, charset, ow, cw, chint) ==
   LET bpath == <<[mv |-> <<V(1, 0, 1), V(1, 0, 2)>>, segs |-> Blk("Lh", 1, 1) \o Blk("Lv", 1, 2)]>>
       apath == <<[mv |-> <<V(2, 0, 1), V(2, 0, 2)>>, segs |-> Blk("Chv", 1, 1)]>>
       adx == 300 * ONE  ady == 0 - 40 * ONE
-      hint(i) == IF chint THEN StemsTok(i, 1) \o <<O("hstemhm")>> \o StemsTok(i + 2, 1)
-                               \o <<O("hintmask"), MB(<<14>>)>> ELSE <<>>
+      \* chint stems by hstemhm and chint more left for hintmask: with 5 + 5 stems per component the
+      \* mask has two bytes, and a count carried over from the base would make it three
+      hint(i) == IF chint > 0 THEN StemsTok(i, chint) \o <<O("hstemhm")>> \o StemsTok(i + chint, chint)
+                                   \o <<O("hintmask"), MB(IF chint = 1 THEN <<14>> ELSE <<21, 14>>)>> ELSE <<>>
       comp(path, wv, i) == (IF cw THEN <<N(wv * ONE)>> ELSE <<>>) \o hint(i)
                            \o App("rmoveto", path[1].mv) \o AppsTokens(Compact(path[1].segs)) \o <<O("endchar")>>
       outer == (IF ow THEN <<N(55 * ONE)>> ELSE <<>>)
@@ -343,9 +349,12 @@ SeacCases(codes, charset, ow, cw, chint) ==
       \* expected: the base at the origin, the accent displaced by (adx, ady)
       path == bpath \o <<[mv |-> <<adx + apath[1].mv[1] - (bpath[1].mv[1] + bpath[1].segs[1].d[1]),
                                     ady + apath[1].mv[2] - (bpath[1].mv[2] + bpath[1].segs[2].d[2])>>,
-                          segs |-> apath[1].segs]>> IN
-  { Case("seac", "", "cff", outer, <<>>, <<>>, 0, 0,
-         <<[i |-> codes[1], t |-> comp(bpath, 31, 0)], [i |-> codes[2], t |-> comp(apath, 32, 4)]>>,
+                          segs |-> apath[1].segs]>>
+      tag == (IF charset = "iso" /\ (codes[1] > 228 \/ codes[2] > 228) THEN "isoadobe-code-above-228" ELSE "codes-plain")
+             \o (IF ow THEN "+width" ELSE "+nowidth") \o (IF cw THEN "+compwidth" ELSE "")
+             \o (IF chint = 1 THEN "+comphints" ELSE IF chint = 5 THEN "+comphints10" ELSE "") IN
+  { Case("seac", tag, "cff", outer, <<>>, <<>>, 0, 0,
+         <<[i |-> codes[1], t |-> comp(bpath, 31, 0)], [i |-> codes[2], t |-> comp(apath, 32, 11)]>>,
          charset, NoVar, path, TRUE) }
 
 \* ---- family "blend": CFF2 blend / vsindex at a variation tuple
@@ -378,6 +387,11 @@ MiscCases ==
   LET big == <<[mv |-> <<4096 * ONE, 0 - 4096 * ONE>>,
                  segs |-> <<SegL(4096 * ONE, 0 - 4096 * ONE), SegL(4095 * ONE, 0 - 4095 * ONE),
                             SegL(4000 * ONE + 256, 0 - 4000 * ONE - 65280), SegL(0 - 4096 * ONE, 4096 * ONE)>>]>>
+      \* CFF2 allows 513 operands: thirteen curves in one hvcurveto / vhcurveto (52 and 53 operands)
+      long(first) == <<[mv |-> <<V(1, 0, 1), V(1, 0, 2)>>,
+                        segs |-> Cat(LAMBDA i : Blk(IF (i % 2 = 1) = first THEN (IF i = 13 THEN "Chx" ELSE "Chv")
+                                                    ELSE (IF i = 13 THEN "Cvx" ELSE "Cvh"), 1, i), 13)]>>
+      longop(first) == IF first THEN "hvcurveto" ELSE "vhcurveto"
       tiny == <<[mv |-> <<1, -1>>, segs |-> <<SegL(65535, -65535), SegL(ONE + 32768, 0 - 32768)>>]>> IN
   UNION {
     { Case("misc", "space", k, END(k), <<>>, <<>>, 0, 0, <<>>, "iso", NoVar, <<>>, TRUE) : k \in {"cff", "cff2"} },
@@ -388,6 +402,10 @@ MiscCases ==
            <<>>, <<>>, 0, 0, <<>>, "iso", NoVar, <<>>, TRUE) },
     { Case("misc", "big", k, App("rmoveto", big[1].mv) \o AppsTokens(Compact(big[1].segs)) \o END(k),
            <<>>, <<>>, 0, 0, <<>>, "iso", NoVar, big, TRUE) : k \in {"cff", "cff2"} },
+    { Case("misc", "cff2-" \o longop(f) \o "-53-operands", "cff2",
+           App("rmoveto", long(f)[1].mv)
+           \o App(longop(f), CHOOSE x \in Match(longop(f), long(f)[1].segs) : TRUE),
+           <<>>, <<>>, 0, 0, <<>>, "iso", NoVar, long(f), TRUE) : f \in BOOLEAN },
     { Case("misc", "tiny", k, App("rmoveto", tiny[1].mv) \o AppsTokens(Compact(tiny[1].segs)) \o END(k),
            <<>>, <<>>, 0, 0, <<>>, "iso", NoVar, tiny, TRUE) : k \in {"cff", "cff2"} } }
 
@@ -410,7 +428,7 @@ Selections ==
            k \in {"cff", "cid", "cff2"}, c \in {1, 2, 1239, 1240, 1241} \cup BigCounts, g \in BOOLEAN}
   \cup {[fam |-> "seac", codes |-> cd, charset |-> chs, ow |-> ow, cw |-> cw, chint |-> chint] :
            cd \in {<<65, 194>>, <<245, 194>>, <<105, 251>>}, chs \in {"iso", "custom"},
-           ow \in BOOLEAN, cw \in BOOLEAN, chint \in BOOLEAN}
+           ow \in BOOLEAN, cw \in BOOLEAN, chint \in {0, 1, 5}}
   \cup {[fam |-> "blend", regions |-> Reg1, tuple |-> t, vs |-> vs] :
            t \in BlendTuples1, vs \in {"none0", "priv1", "op1"}}
   \cup {[fam |-> "blend", regions |-> Reg2, tuple |-> t, vs |-> vs] :
@@ -480,7 +498,7 @@ GenExact ==
 \* Generator: one CASE per halted machine
 EmitCase ==
   Halted =>
-    PrintT(<<"CASE", ToJson([fam |-> cs.fam, tag |-> cs.tag, kind |-> cs.kind, prog |-> cs.prog,
+    PrintT(<<"CASE", ToJson([fam |-> cs.fam, tag |-> cs.tag, feat |-> cs.feat, kind |-> cs.kind, prog |-> cs.prog,
                              lsubrs |-> cs.lsubrs, gsubrs |-> cs.gsubrs, nL |-> cs.nL, nG |-> cs.nG,
                              comps |-> cs.comps, charset |-> cs.charset,
                              regions |-> cs.regions, tuple |-> cs.tuple, dvs |-> cs.dvs,
